@@ -49,7 +49,7 @@ func runExpo(w *World, st *VStats, twice ...bool) (r *expoRun, skip bool, f *VFa
 	if base.Panic != nil {
 		return nil, false, &VFailure{Msg: fmt.Sprintf("list panicked: %v", base.Panic), Sig: "panic"}
 	}
-	xr := RunList(dir, ListOpts{Exposure: true, Twice: len(twice) > 0 && twice[0]})
+	xr := RunList(dir, ListOpts{Exposure: true, Twice: len(twice) > 0 && twice[0], Format: "txt", WantOutput: true})
 	if xr.Panic != nil {
 		return nil, false, &VFailure{Msg: fmt.Sprintf("list --exposure panicked: %v", xr.Panic), Sig: "panic"}
 	}
@@ -112,6 +112,43 @@ func hypoPoints(w *World, H *Workload, conn *XConn) []int {
 	return sortedInts(pm)
 }
 
+// realizable: hypothetical pods that satisfy the entry's selectors get at least the reported connections.
+func realizable(tp *Tape, w *World, W *Workload, dir string, e *XEntry, how string, st *VStats) (nontrivial bool, f *VFailure) {
+	for k := 0; k < 4; k++ {
+		w2, H, ok := hypoFor(tp, w, &e.Ns, &e.Pod, e.Entire)
+		if !ok {
+			st.Class("unsatisfiable selector pair (vacuous)")
+			continue
+		}
+		if !e.Entire {
+			nontrivial = true
+		}
+		if len(H.Ports) > 0 {
+			st.Class("hypothetical pod declares named ports")
+		}
+		res := H
+		if dir == "Ingress" {
+			res = W
+		}
+		for _, proto := range protos {
+			for _, port := range hypoPoints(w, H, e.Conn) {
+				if !e.Conn.Has(proto, port, res) {
+					continue
+				}
+				st.Points(1)
+				dst := End{W: H}
+				if dir == "Ingress" {
+					dst = End{W: W}
+				}
+				if _, ok := w2.npVerdict(W, End{W: H}, dir, proto, port, dst); !ok {
+					return nontrivial, vfail("C06(c) UNSOUND exposure%s: %s %s entry %s; hypothetical pod %+v in namespace %s with labels %v satisfies the entry, but %s/%d is not allowed by the workload's policies", how, W.PeerString(), dir, xentryStr(e), *H, H.Ns, w2.nsLabels(H.Ns), proto, port)
+				}
+			}
+		}
+	}
+	return nontrivial, nil
+}
+
 func checkC06(c *ExpoCase, st *VStats) *VFailure {
 	w := c.W
 	r, skip, f := runExpo(w, st, c.Twice)
@@ -141,39 +178,41 @@ func checkC06(c *ExpoCase, st *VStats) *VFailure {
 			}
 			// (c) realizability
 			for ei := range ents {
-				e := &ents[ei]
-				for k := 0; k < 4; k++ {
-					w2, H, ok := hypoFor(tp, w, &e.Ns, &e.Pod, e.Entire)
-					if !ok {
-						st.Class("unsatisfiable selector pair (vacuous)")
-						continue
-					}
-					if !e.Entire {
-						nontrivial = true
-					}
-					if len(H.Ports) > 0 {
-						st.Class("hypothetical pod declares named ports")
-					}
-					res := H
-					if dir == "Ingress" {
-						res = W
-					}
-					for _, proto := range protos {
-						for _, port := range hypoPoints(w, H, e.Conn) {
-							if !e.Conn.Has(proto, port, res) {
-								continue
-							}
-							st.Points(1)
-							dst := End{W: H}
-							if dir == "Ingress" {
-								dst = End{W: W}
-							}
-							if _, ok := w2.npVerdict(W, End{W: H}, dir, proto, port, dst); !ok {
-								return vfail("C06(c) UNSOUND exposure: %s %s entry %s; hypothetical pod %+v in namespace %s with labels %v satisfies the entry, but %s/%d is not allowed by the workload's policies", W.PeerString(), dir, xentryStr(e), *H, H.Ns, w2.nsLabels(H.Ns), proto, port)
-							}
-						}
-					}
+				nt, f := realizable(tp, w, W, dir, &ents[ei], "", st)
+				if f != nil {
+					return f
 				}
+				nontrivial = nontrivial || nt
+			}
+		}
+	}
+	// (d) the report AS PRINTED (txt): every potential-peer line, read back into a selector pair, is realizable too -
+	// `list --exposure` is what the statement names, and a designation that drops a requirement promises too much
+	if p, err := ParseList("txt", r.xr.Out); err == nil {
+		for _, x := range p.Exposure {
+			if x.Peer == "entire-cluster" {
+				continue
+			}
+			parts := strings.SplitN(x.Peer, " || ", 2)
+			if len(parts) != 2 {
+				continue
+			}
+			ns, ok1 := parseDesignationPart(parts[0], true)
+			pod, ok2 := parseDesignationPart(parts[1], false)
+			if !ok1 || !ok2 {
+				st.Class("printed designation not read back")
+				continue
+			}
+			for wi := range w.Workloads {
+				W := &w.Workloads[wi]
+				if W.PeerString() != x.W || !governed(w, W, x.Dir) {
+					continue
+				}
+				e := XEntry{Ns: *ns, Pod: *pod, Conn: ParseConn(x.Conn)}
+				if _, f := realizable(tp, w, W, x.Dir, &e, " (as printed in the txt report)", st); f != nil {
+					return f
+				}
+				st.Class("printed exposure line checked for realizability")
 			}
 		}
 	}
